@@ -41,7 +41,7 @@ def check(run):
     run.lean_props(common.modules_for("C14"))
     rng = run.rng
     zs = z_strata(rng, 20 if quick else 200)
-    kern.corr_cpow(run, zs, [0, 1, 2, 3, 9, 64] if quick else [0, 1, 2, 3, 4, 9, 64, 257, 2048])
+    run.attempt("corr:corr_cpow", kern.corr_cpow, run, zs, [0, 1, 2, 3, 9, 64] if quick else [0, 1, 2, 3, 4, 9, 64, 257, 2048])
     worst = 0.0
     Ms = [0, 1, 2, 7, 256, 2048] if quick else [0, 1, 2, 3, 7, 100, 256, 1000, 2048]
     for lab, z in zs:
